@@ -1,12 +1,15 @@
 """C08 - GetChildVersion answers found / not-found / gone consistently with AddVersion."""
+from rules import http as H
 from rules import shared as S
 LEVEL = "proof"
 TRUSTED = ["TB-rustc", "TB-sqlite", "TB-mutex"]
 EXPLANATION = ("decision-table equivalence between GetChildVersion and AddVersion over the finite set of id-equality valuations "
-               "(latest==NIL, parent==latest, child-exists): exhaustive, 4 rows")
+               "(latest==NIL, parent==latest, child-exists): exhaustive, 4 rows; both endpoints accept the same set of parent ids "
+               "(plain path parameters parsed by the typed extractor, no route pattern)")
 
 
 def run(rep, W, ctx):
     S.s_txn1(rep, W, W.op("get_child_version"))
     S.s_txn1(rep, W, W.op("add_version"))
     S.c08(rep, W)
+    H.route_params_plain(rep, W)     # the two endpoints take the parent id from the URL the same way: no route pattern narrows one of them
